@@ -2,12 +2,16 @@ import SkoolVerif.Proofs.MachineLemmas
 /-! The two concrete memories (48K list, 128K `pagingtracer.Memory` + tracer) are lawful. -/
 namespace Z80
 
-/-- Cell-range law: after a write every cell is either the written value or an old cell. -/
+def Byte (v : Int) : Prop := 0 ≤ v ∧ v < 256
+def Word (v : Int) : Prop := 0 ≤ v ∧ v < 65536
+
+/-- Cell-range law: `ok m` says every *physical* cell of the memory (all banks and ROMs, paged in or
+not) is a byte; reads then return bytes, and byte writes and port writes preserve it. -/
 class CellMem (μ : Type) [MemLike μ] where
-  get_set_cases : ∀ (m : μ) (a v b : Int), MemLike.get (MemLike.set m a v) b = v ∨
-      ∃ b', MemLike.get (MemLike.set m a v) b = MemLike.get m b'
-  get_portOut_cases : ∀ (m : μ) (p v b : Int), ∃ b', MemLike.get (MemLike.portOut m p v) b = MemLike.get m b' ∨
-      MemLike.get (MemLike.portOut m p v) b = 0
+  ok : μ → Prop
+  ok_get : ∀ (m : μ) (a : Int), ok m → Byte (MemLike.get m a)
+  ok_set : ∀ (m : μ) (a v : Int), ok m → Byte v → ok (MemLike.set m a v)
+  ok_portOut : ∀ (m : μ) (p v : Int), ok m → ok (MemLike.portOut m p v)
 
 /-! ### 48K -/
 
@@ -42,5 +46,70 @@ instance : RomMem Mem128 (Array (Array Int)) where
     intro m p v
     simp only [MemLike.portOut, Mem128.portOut]
     split <;> rfl
+
+
+/-! ### cell ranges -/
+
+theorem getD_byte (a : Array Int) (h : ∀ x ∈ a, Byte x) (i : Nat) : Byte (a.getD i 0) := by
+  unfold Array.getD; split
+  · exact h _ (Array.getElem_mem _)
+  · unfold Byte; omega
+
+theorem setIfInBounds_byte (a : Array Int) (h : ∀ x ∈ a, Byte x) (i : Nat) (v : Int) (hv : Byte v) :
+    ∀ x ∈ a.setIfInBounds i v, Byte x := by
+  intro x hx
+  rcases Array.mem_or_eq_of_mem_setIfInBounds hx with h1 | h1
+  · exact h x h1
+  · exact h1 ▸ hv
+
+instance : CellMem Mem48 where
+  ok m := ∀ x ∈ m.cells, Byte x
+  ok_get := by intro m a h; exact getD_byte _ h _
+  ok_set := by
+    intro m a v h hv
+    simp only [MemLike.set]; split
+    · exact setIfInBounds_byte _ h _ _ hv
+    · exact h
+  ok_portOut := by intro m p v h; exact h
+
+def Mem128.physOk (m : Mem128) : Prop :=
+  (∀ b ∈ m.banks, ∀ x ∈ b, Byte x) ∧ (∀ r ∈ m.roms, ∀ x ∈ r, Byte x)
+
+theorem getD2_byte (aa : Array (Array Int)) (h : ∀ b ∈ aa, ∀ x ∈ b, Byte x) (i j : Nat) :
+    Byte ((aa.getD i #[]).getD j 0) := by
+  apply getD_byte
+  unfold Array.getD; split
+  · exact h _ (Array.getElem_mem _)
+  · intro x hx; simp at hx
+
+theorem set2_byte (aa : Array (Array Int)) (h : ∀ b ∈ aa, ∀ x ∈ b, Byte x) (i j : Nat) (v : Int) (hv : Byte v) :
+    ∀ b ∈ aa.setIfInBounds i ((aa.getD i #[]).setIfInBounds j v), ∀ x ∈ b, Byte x := by
+  intro b hb
+  rcases Array.mem_or_eq_of_mem_setIfInBounds hb with h1 | h1
+  · exact h b h1
+  · subst h1
+    apply setIfInBounds_byte _ _ _ _ hv
+    unfold Array.getD; split
+    · exact h _ (Array.getElem_mem _)
+    · intro x hx; simp at hx
+
+instance : CellMem Mem128 where
+  ok := Mem128.physOk
+  ok_get := by
+    intro m a h
+    simp only [MemLike.get, Mem128.get]
+    split
+    · exact getD2_byte _ h.2 _ _
+    · exact getD2_byte _ h.1 _ _
+  ok_set := by
+    intro m a v h hv
+    simp only [MemLike.set, Mem128.set]
+    split
+    · exact ⟨h.1, set2_byte _ h.2 _ _ _ hv⟩
+    · exact ⟨set2_byte _ h.1 _ _ _ hv, h.2⟩
+  ok_portOut := by
+    intro m p v h
+    simp only [MemLike.portOut, Mem128.portOut]
+    split <;> exact h
 
 end Z80
